@@ -127,6 +127,12 @@ def run(res, f, tier):
         if im.get("trait") == "std::convert::From" and im["self_s"] == VALUE and b["name"] == "from":
             froms.append((d, b, im))
         if im.get("trait") == "std::convert::TryFrom" and im["trait_args"] == [VALUE] and b["name"] == "try_from":
+            tgt = im["self_s"].split("<")[0]
+            if tgt in f.adts and f.adts[tgt].get("local") and not tgt.startswith("value::"):
+                # a crate-private helper type outside the value module (the evaluator's own `Truth(bool)`): not part of the
+                # conversion API the property is about; what the evaluator does with it is C02-C05's
+                res.notes.append("not a conversion of the public API: TryFrom<Value> for %s" % im["self_s"])
+                continue
             tryfroms.append((d, b, im))
     res.floor("From<_> for Value impls", len(froms), 18)
     res.floor("TryFrom<Value> for _ impls", len(tryfroms), 17)
